@@ -443,7 +443,7 @@ PROPS["C01"] = {
     "assumptions": ["the WebRTC hop, Peers, staleness detection and the proxy copy loop are not in tier 1 (model client speaks WebSocket directly to the server)",
                     "a missed real-time deadline is never a violation by itself: a stall is re-run alone with a doubled budget"],
     "units": [U("c01_transport", "ext", "c01", "^TestVerifC01Transport$", (60, 1500), shards=(8, 16), timeout=(400, 3000)),
-              U("c01_system", "ext", "sys", "^TestVerifC01System$", (0, 12), shards=(0, 8), timeout=(400, 3400), tiers=["thorough"])],
+              U("c01_system", "ext", "sys", "^TestVerifC01System$", (0, 40), shards=(0, 8), timeout=(400, 3400), tiers=["thorough"])],
 }
 META["C01"] = {
     "level": "Sampled exploration of fault sequences and payloads: byte-exact prefix oracle on both ends of the real server transport with injected carrier faults at generated byte offsets; whole-system runs with real binaries in the thorough tier.",
@@ -526,7 +526,7 @@ PROPS["C20"] = {
         R("c20_peers", "inpkg", "client/lib", "^TestVerifC15(Peers|Rendezvous)$", (40, 400)),
         R("c20_proxy", "inpkg", "proxy/lib", "^TestVerifC16Sessions$", (15, 150)),
         R("c20_eventlogger", "inpkg", "proxy/lib", "^TestVerifC20EventLogger$", (60, 600)),
-        R("c20_system", "ext", "sys", "^TestVerifC01System$", (0, 8), shards=(0, 4), timeout=(400, 3400), tiers=["thorough"], env={"VERIF_SYS_RACE": "1"}),
+        R("c20_system", "ext", "sys", "^TestVerifC01System$", (0, 20), shards=(0, 4), timeout=(400, 3400), tiers=["thorough"], env={"VERIF_SYS_RACE": "1"}),
     ],
 }
 META["C20"] = {
@@ -540,7 +540,7 @@ PROPS["C09"]["units"].append(F("c09_fuzz_stream", "c09", "FuzzC09Stream", 90))
 PROPS["C09"]["units"].append(F("c09_fuzz_rapid", "c09", "FuzzC09Rapid", 60))
 PROPS["C07"]["units"].append(F("c07_fuzz_rapid", "c07", "FuzzC07Rapid", 90))
 PROPS["C07"]["units"].append(F("c07_fuzz_bytes", "c07", "FuzzC07Bytes", 90))
-PROPS["C07"]["units"].append(U("c07_system", "ext", "sys", "^TestVerifC01System$", (0, 12), shards=(0, 4), timeout=(400, 1500),
+PROPS["C07"]["units"].append(U("c07_system", "ext", "sys", "^TestVerifC01System$", (0, 30), shards=(0, 4), timeout=(400, 1500),
                                tiers=["thorough"], env={"VERIF_SYS_PURPOSE": "c07"}))
 PROPS["C07"]["rule"] += (" c07_system (thorough): the whole-system tier's generated fault schedules (see C01) with all four unmodified "
                          "binaries logging to files without -unsafe-logging; after every case the appended complete log lines are scanned: "
